@@ -720,7 +720,7 @@ namespace svmon
         apply_model (op, r);
         apply_alloc_model (op);
         if (op.kind == OP_CTOR_MOVE || op.kind == OP_ASSIGN_MOVE || op.kind == OP_APPEND_MOVE)
-          if (op.t != op.s) resync (op.s);
+          resync (op.s);   // moved-from contents are unspecified (for self move-assignment this is the target itself)
       }
       const char *save_also = g.also_prop; const char *save_pref = g.also_prefix;
       if (r.out == OUT_FAULT || r.out == OUT_FAULT_ALLOC) { g.also_prop = "C06"; g.also_prefix = ""; }
@@ -842,7 +842,7 @@ namespace svmon
         case OP_CTOR_ILIST: case OP_CTOR_COPY: case OP_ASSIGN_COPY: case OP_APPEND_COPY:
           return feat.copyable;
         case OP_RESIZE: case OP_CTOR_N: return feat.def_ctor;
-        case OP_SWAP: return info[t].N == info[s].N && t != s;
+        case OP_SWAP: return info[t].N == info[s].N;
         case OP_CTOR_ALLOC: return true;
       }
       return true;
@@ -935,9 +935,11 @@ namespace svmon
         op.kind = table[rng.below (tn)];
         op.t = static_cast<int> (rng.below (NSLOT));
         op.s = static_cast<int> (rng.below (NSLOT));
-        if (op_is_binary (op.kind) && op.s == op.t && ! (op.kind == OP_ASSIGN_COPY && rng.chance (1, 4)) && op.kind != OP_COMPARE)
+        const bool self_ok = (op.kind == OP_ASSIGN_COPY || op.kind == OP_ASSIGN_MOVE || op.kind == OP_SWAP) && rng.chance (1, 8);
+        if (op_is_binary (op.kind) && op.s == op.t && ! self_ok && op.kind != OP_COMPARE)
           op.s = (op.t + 1 + static_cast<int> (rng.below (NSLOT - 1))) % NSLOT;
-        if (op.kind == OP_SWAP)
+        if (self_ok) op.s = op.t;
+        if (op.kind == OP_SWAP && ! self_ok)
         {
           // only equal-N partners
           int cand[NSLOT]; int nc = 0;
